@@ -190,11 +190,11 @@ class SymInt:
     comparisons without the solver and bounds the width (Python ints never wrap: a result
     that may need more than 127 bits aborts the path as Unsupported)."""
 
-    __slots__ = ("e", "lo", "hi", "mulof")
+    __slots__ = ("e", "lo", "hi", "lin")
 
     def __init__(self, e, bits=None, lo=None, hi=None):
         self.e = e
-        self.mulof = None  # (base SymInt, k): this value is base * k exactly (algebraic provenance)
+        self.lin = None  # ({atom id: (atom SymInt, coeff)}, const): exact linear form of this value (algebraic provenance)
         if lo is None:
             lo, hi = _b2r(bits)
         if lo < -(1 << (W - 2)) or hi >= (1 << (W - 2)):
@@ -214,7 +214,7 @@ class SymInt:
             oe, ol, oh = lift3(o)
         except TypeError:
             return NotImplemented
-        return mk(self.e + oe, self.lo + ol, self.hi + oh)
+        return _with_lin(mk(self.e + oe, self.lo + ol, self.hi + oh), _lin_add(_lin(self), _lin(o), 1))
 
     __radd__ = __add__
 
@@ -223,14 +223,14 @@ class SymInt:
             oe, ol, oh = lift3(o)
         except TypeError:
             return NotImplemented
-        return mk(self.e - oe, self.lo - oh, self.hi - ol)
+        return _with_lin(mk(self.e - oe, self.lo - oh, self.hi - ol), _lin_add(_lin(self), _lin(o), -1))
 
     def __rsub__(self, o):
         try:
             oe, ol, oh = lift3(o)
         except TypeError:
             return NotImplemented
-        return mk(oe - self.e, ol - self.hi, oh - self.lo)
+        return _with_lin(mk(oe - self.e, ol - self.hi, oh - self.lo), _lin_add(_lin(o), _lin(self), -1))
 
     def __mul__(self, o):
         if type(o) is SymRatio:
@@ -242,16 +242,23 @@ class SymInt:
         except TypeError:
             return NotImplemented
         ps = (self.lo * ol, self.lo * oh, self.hi * ol, self.hi * oh)
-        r = mk(self.e * oe, min(ps), max(ps))
-        if type(o) is int and type(r) is SymInt and o > 0:
+        lo_, hi_ = min(ps), max(ps)
+        w = max(lo_.bit_length(), hi_.bit_length()) + 2
+        if w < W - 8:
+            # multiply at the width the result needs (cheaper to bit-blast), then sign-extend
+            prod = z3.SignExt(W - w, z3.Extract(w - 1, 0, self.e) * z3.Extract(w - 1, 0, oe))
+        else:
+            prod = self.e * oe
+        r = mk(prod, lo_, hi_)
+        if type(o) is int:
             if o == 1:
                 return self
-            r.mulof = (self, o) if self.mulof is None else (self.mulof[0], self.mulof[1] * o)
+            return _with_lin(r, _lin_scale(_lin(self), o))
         return r
 
     __rmul__ = __mul__
 
-    def __neg__(self): return mk(-self.e, -self.hi, -self.lo)
+    def __neg__(self): return _with_lin(mk(-self.e, -self.hi, -self.lo), _lin_scale(_lin(self), -1))
     def __pos__(self): return self
     def __abs__(self):
         if self.lo >= 0:
@@ -300,13 +307,25 @@ class SymInt:
     def _qr(self, d):
         """floor quotient / remainder by a positive constant as fresh variables tied by
         x == q*d + r, 0 <= r < d (a constant multiplier is far cheaper to bit-blast than a divider)"""
-        if self.mulof is not None:
-            base, k = self.mulof
-            if k % d == 0:
-                return base * (k // d), 0
-            if d % k == 0:
-                q, r = divmod(base, d // k)
-                return q, r * k
+        terms, const = _lin(self)
+        if self.lin is not None:
+            # (d*A + B) // d == A + B // d and (d*A + B) % d == B % d for every integer A
+            div = {i: (a, k) for i, (a, k) in terms.items() if k % d == 0}
+            rest = {i: (a, k) for i, (a, k) in terms.items() if k % d != 0}
+            if div or (const // d != 0 and rest):
+                A = const // d
+                for a, k in div.values():
+                    A = A + a * (k // d)
+                B = const % d
+                for a, k in rest.values():
+                    B = B + a * k
+                qb, rb = divmod(B, d)
+                return A + qb, rb
+            if len(rest) == 1 and const == 0:
+                (a, k), = rest.values()
+                if k > 0 and d % k == 0 and (a.lin is None):
+                    q, r = divmod(a, d // k)
+                    return q, r * k
         c = ctx()
         cache = c.notes.setdefault("symint_qr", {})
         key = (self.e.get_id(), d)
@@ -316,7 +335,12 @@ class SymInt:
             r, _ = sym_var(c.name("r"), 0, d - 1) if d > 1 else (0, None)
             qe = lift3(q)[0]
             re_ = lift3(r)[0]
-            c.add(self.e == qe * bvval(d) + re_)
+            w = max(self.lo.bit_length(), self.hi.bit_length(), (qh * d + d).bit_length(), (ql * d).bit_length()) + 2
+            if w < W - 8:
+                ex = lambda t: z3.Extract(w - 1, 0, t)
+                c.add(ex(self.e) == ex(qe) * z3.BitVecVal(d, w) + ex(re_))
+            else:
+                c.add(self.e == qe * bvval(d) + re_)
             cache[key] = (q, r, self.e)
         return cache[key][0], cache[key][1]
 
@@ -463,6 +487,47 @@ class SymInt:
     def __format__(self, spec): return "<SymInt>"
     def __repr__(self): return "<SymInt>"
     def __str__(self): return "<SymInt>"
+
+
+def _lin(x):
+    if type(x) is int:
+        return {}, x
+    if type(x) is bool:
+        return {}, int(x)
+    if type(x) is SymInt:
+        if x.lin is not None:
+            return x.lin
+        return {x.e.get_id(): (x, 1)}, 0
+    return None
+
+
+def _lin_add(a, b, sign):
+    if a is None or b is None:
+        return None
+    terms = dict(a[0])
+    for i, (atom, k) in b[0].items():
+        old = terms.get(i)
+        nk = (old[1] if old else 0) + sign * k
+        if nk == 0:
+            terms.pop(i, None)
+        else:
+            terms[i] = (atom, nk)
+    if _len(terms) > 8:
+        return None
+    return terms, a[1] + sign * b[1]
+
+
+def _lin_scale(a, k):
+    if a is None or k == 0:
+        return None
+    return {i: (atom, c * k) for i, (atom, c) in a[0].items()}, a[1] * k
+
+
+def _with_lin(r, lin):
+    if type(r) is SymInt and lin is not None and lin[0]:
+        if not (_len(lin[0]) == 1 and lin[1] == 0 and next(iter(lin[0].values()))[1] == 1):
+            r.lin = lin
+    return r
 
 
 import operator as _op
